@@ -1,2 +1,73 @@
-(* C07 property theorems: statements only *)
-From Coq Require Import String List Bool Arith.
+(* C07 -- A file's analysis result is independent of other files, order and repetition.
+   Only statements live here; every proof is [exact <lemma of Proofs/IndependenceProofs.v>]. *)
+From Coq Require Import String List Bool Arith Permutation.
+From Coca Require Import Lib.Sx Lib.GoMap Lib.Str Model.CodeModel Model.JavaFull Model.JavaFactsCodec Model.JavaIdent
+     Model.ApiScan Model.BadSmell Model.RCall Model.CallGraph Proofs.JavaFullProofs Proofs.ApiProofs
+     Proofs.IndependenceProofs Entry.C07.
+Import ListNotations.
+Open Scope string_scope.
+
+(* 1. identifier pass: whatever the process did before (any listener state), the result for a file list is
+      the concatenation, file by file, of what each file yields from the initial state *)
+Theorem C07_ident_per_file : forall units st, snd (ident_files st units) = flat_map ident_of_file units.
+Proof. exact ident_files_per_file. Qed.
+Print Assumptions C07_ident_per_file.
+
+(* 2. full pass, identifier set held fixed: the same, for every state in which no class body is open
+      (which is how every file leaves the listener: second conjunct) *)
+Theorem C07_full_per_file : forall ids units st,
+    s_hasEnterClass st = false ->
+    snd (analysis_files st ids units) = flat_map (full_of_file ids) units /\
+    s_hasEnterClass (fst (analysis_files st ids units)) = false.
+Proof. exact analysis_files_per_file. Qed.
+Print Assumptions C07_full_per_file.
+
+(* 3. order and other files: for any per-file result function, a permuted file list gives the same entries
+      file-wise permuted, and the entries of a file are a contiguous block of the result of any file list
+      that contains it *)
+Theorem C07_order_irrelevant : forall (U E : Type) (per : U -> list E) l l',
+    Permutation l l' -> Permutation (flat_map per l) (flat_map per l').
+Proof. exact (fun U E => @per_file_permutation U E). Qed.
+Print Assumptions C07_order_irrelevant.
+
+Theorem C07_other_files_irrelevant : forall (U E : Type) (per : U -> list E) u l,
+    In u l -> exists a b, flat_map per l = (a ++ per u ++ b)%list.
+Proof. exact (fun U E => @per_file_superset U E). Qed.
+Print Assumptions C07_other_files_irrelevant.
+
+(* 4. bad smells are found per file; the API scan does not depend on the listener state left behind *)
+Theorem C07_bad_smell_per_file : forall a b ignore,
+    identify_bad_smell (a ++ b) ignore = (identify_bad_smell a ignore ++ identify_bad_smell b ignore)%list.
+Proof. exact bad_smell_per_file. Qed.
+Print Assumptions C07_bad_smell_per_file.
+
+Theorem C07_api_state_free : forall units st st',
+    option_map snd (api_files st units) = option_map snd (api_files st' units).
+Proof. exact api_files_state_free. Qed.
+Print Assumptions C07_api_state_free.
+
+(* 5. the same call-graph / reverse-call-graph query gives the same graph whatever the counters and the
+      last-child marker of earlier queries are *)
+Theorem C07_call_graph_repeatable : forall cnt cnt' root m lookup,
+    snd (canalysis cnt root m lookup) = snd (canalysis cnt' root m lookup).
+Proof. exact call_graph_repeatable. Qed.
+Print Assumptions C07_call_graph_repeatable.
+
+Theorem C07_rcall_graph_repeatable : forall st st' target m,
+    snd (ranalysis st target m) = snd (ranalysis st' target m).
+Proof. exact rcall_graph_repeatable. Qed.
+Print Assumptions C07_rcall_graph_repeatable.
+
+(* 6. histories: the interpreter the correspondence check runs against the implementation.  Every run of
+      every history (any kinds, selections, orders, repetitions) yields exactly what it yields as the only
+      run of a fresh process *)
+Theorem C07_history_free : forall files names0 rs st,
+    good st ->
+    run_all files names0 st rs = map (fun r => snd (run_one files names0 (pstate_init istate0) r)) rs.
+Proof. exact history_free. Qed.
+Print Assumptions C07_history_free.
+
+(* non-vacuity: the initial process state is good *)
+Example C07_initial_state_good : good (pstate_init istate0).
+Proof. exact eq_refl. Qed.
+Print Assumptions C07_initial_state_good.
